@@ -218,6 +218,10 @@ func slotDomain(slot string, enum bool) []sem.Operand {
 		for i := range simpleMems {
 			out = append(out, memOp(i, size))
 		}
+	case "moffs":
+		for _, a := range []int64{0, 1, 0x10, 0x0ff0, 0x7fff, 0x8000, 0xffff} {
+			out = append(out, sem.M(sem.Mem{Disp: a, HasDisp: true}))
+		}
 	case "acc8", "acc16", "acc32":
 		out = append(out, sem.R(map[string]string{"acc8": "AL", "acc16": "AX", "acc32": "EAX"}[slot]))
 	case "DX", "CL":
@@ -307,6 +311,11 @@ func InstForms() []form {
 		add("in.dx", "IN", "acc"+w, "DX")
 		add("out.imm", "OUT", "imm8", "acc"+w)
 		add("out.dx", "OUT", "DX", "acc"+w)
+	}
+	for _, w := range []string{"8", "16", "32"} {
+		// accumulator <-> absolute address (the forms without ModR/M)
+		add("mov.moffs", "MOV", "acc"+w, "moffs")
+		add("mov.moffs", "MOV", "moffs", "acc"+w)
 	}
 	add("mov.sreg", "MOV", "sreg", "r16")
 	add("mov.sreg", "MOV", "r16", "sreg")
